@@ -84,6 +84,8 @@ type Exec struct {
 	escCache      map[*ssa.Alloc]bool
 	callOnlyCache map[*ssa.Alloc]bool
 	semKeep       bool                  // havocAll runs for a call: cells of fresh objects that never escaped survive it
+	rebind        map[string]string     // invariant-only names re-bound to renamed locals (copied from Engine.rebind at creation)
+	rebindOK      bool                  // evaluating a loop invariant of the function under contract: an unknown local name may be re-bound
 	arrOrigin     map[string]originInfo // backing arrays created by slicing an array value
 	alias         map[string][]string   // backing-array term -> arrays it may denote (append results)
 	unfoldDepth   map[string]int
@@ -142,7 +144,7 @@ func (x *Exec) noteRead(key string, t types.Type) {
 func (x *Exec) note(s string) { x.notes[s] = true }
 
 func newExec(eng *Engine, fn *ssa.Function, con *Contract, key string, bound int) *Exec {
-	return &Exec{view: eng.curView, eng: eng, decls: newDecls(), fn: fn, con: con, key: key, bound: bound, tags: map[string]int{}, strs: map[string]int{},
+	return &Exec{rebind: eng.rebind, view: eng.curView, eng: eng, decls: newDecls(), fn: fn, con: con, key: key, bound: bound, tags: map[string]int{}, strs: map[string]int{},
 		keyTypes: map[string]types.Type{}, arrStorage: map[string]bool{}, labels: map[ssa.Instruction]string{}, loops: map[*ssa.Function]*LoopInfo{},
 		notes: map[string]bool{}, alias: map[string][]string{}, arrOrigin: map[string]originInfo{}, escCache: map[*ssa.Alloc]bool{}, iterMap: map[ssa.Value]Val{}, proveCache: map[string]bool{}, errGlobals: map[string]bool{}, noWrapRec: map[string]bool{}}
 }
